@@ -1565,12 +1565,18 @@ def E4_cml(repo, clause):
     ok = False
     if len(tup) == 1:
         lc = tup[0]
-        v = lc.generators[0].target.id
+        tg = lc.generators[0].target
+        # `for i, a in enumerate(rows)`: the row variable is the second target
+        if isinstance(tg, ast.Tuple) and len(tg.elts) == 2 and isinstance(lc.generators[0].iter, ast.Call) and call_name(lc.generators[0].iter) == "enumerate":
+            tg = tg.elts[1]
+        v = tg.id if isinstance(tg, ast.Name) else None
         keys = []
         for e in lc.elt.elts:
             s = e.args[0] if isinstance(e, ast.Call) and call_name(e) == "float" else e
             if isinstance(s, ast.Subscript) and isinstance(s.value, ast.Name) and s.value.id == v:
                 keys.append(const_value(s.slice))
+            elif isinstance(s, ast.Call) and isinstance(s.func, ast.Attribute) and s.func.attr == "get" and isinstance(s.func.value, ast.Name) and s.func.value.id == v and s.args:
+                keys.append(const_value(s.args[0]))     # row.get('id', default)
             else:
                 keys.append(None)
         ok = keys == ["id", "elementType", "x3", "y3", "z3"]
